@@ -104,6 +104,7 @@ func (r *Run) Execute() int {
 	var obs []*Obligation
 	factsOf := map[*Query][]*Term{}
 	var covers []*Query
+	reserve := map[string][]*Query{}
 	for _, u := range units {
 		for _, o := range u.Obligations() {
 			if r.Prop != "all" && len(o.Props) > 0 && !hasProp(o.Props, r.Prop) {
@@ -118,9 +119,25 @@ func (r *Run) Execute() int {
 				factsOf[q] = u.facts()
 			}
 		}
+		// vacuity guard: the precondition and a sample of return paths per unit (enough to notice an
+		// inconsistent assumed contract or axiom; individual infeasible paths are normal). The rest of
+		// the return paths is only consulted if the whole sample turns out infeasible.
+		var rets []*Query
 		for _, q := range u.covers {
-			covers = append(covers, q)
 			factsOf[q] = u.facts()
+			if strings.HasSuffix(q.Path, ":precondition") {
+				covers = append(covers, q)
+			} else if strings.HasSuffix(q.Path, ":return") {
+				rets = append(rets, q)
+			}
+		}
+		step := len(rets)/6 + 1
+		for i, q := range rets {
+			if i%step == 0 {
+				covers = append(covers, q)
+			} else {
+				reserve[u.name] = append(reserve[u.name], q)
+			}
 		}
 	}
 	SolveAll(queries, fuel, opts, func(q *Query) []*Term { return factsOf[q] })
@@ -166,6 +183,22 @@ func (r *Run) Execute() int {
 			if isRet {
 				uc.anyRet = true
 			}
+		}
+	}
+	// units whose whole sample was infeasible: look at their remaining return paths
+	var extra []*Query
+	for un, uc := range per {
+		if uc.pre && uc.hasRet && !uc.anyRet {
+			extra = append(extra, reserve[un]...)
+		}
+	}
+	if len(extra) > 0 {
+		SolveAll(extra, fuel, copts, func(q *Query) []*Term { return factsOf[q] })
+		for _, q := range extra {
+			if q.Result != "unsat" {
+				per[q.Cx.unit].anyRet = true
+			}
+			covers = append(covers, q)
 		}
 	}
 	for _, un := range sortedKeys(per) {
